@@ -348,6 +348,25 @@ def normScope : Option Prefix → Option Prefix
   | none => none
   | some p => if p.bits = 0 then none else some p.masked
 
+/-! ### the iterative resolver between the cache and the authorities -/
+
+/-- `Resolver.clearAdditional` (end of `Resolver.answer`): the additional section
+handed up to the cache is the REQUEST's OPT; when the query carried a client
+subnet option and the authority's response has one, the authority's option
+(with the SCOPE it declared) takes the place of the request's. -/
+def resolverHandUp (reqOpts : Option (List Opt)) (respOpts : Option (List Opt)) : Option (List Opt) :=
+  match reqOpts with
+  | none => none
+  | some ro =>
+    match firstEcs ro, respOpts.bind firstEcs with
+    | some _, some d => some (ro.map (fun o => if o.isEcs then Opt.ecs d else o))
+    | _, _ => some ro
+
+/-- `Resolver.groupLookup`'s singleflight key, as far as this property goes:
+question, CD and the forwarded subnet (family, source netmask, address). -/
+def lookupKey (qid : Nat) (cd : Bool) (reqOpts : List Opt) : Nat × Bool × Option (Nat × Nat × Option (List Nat)) :=
+  (qid, cd, (firstEcs reqOpts).map (fun s => (s.family, s.mask, s.addr)))
+
 /-! ### cache entries -/
 
 structure Entry where
